@@ -1,12 +1,12 @@
 package props
 
 import (
-	"errors"
 	"bytes"
 	"crypto/ed25519"
 	"crypto/sha256"
 	"encoding/hex"
 	"encoding/json"
+	"errors"
 	"filippo.io/age/agessh"
 	"fmt"
 	"io"
